@@ -79,8 +79,13 @@ func newDriver(r *rep.Report, rng *prng.R) *driver {
 
 func (d *driver) caseSexp() sx.S { return sx.L(sx.Sym("sched"), sx.List(d.events)) }
 
+// totalFails: a failing session costs up to peer.Wait; after a few the run
+// stops generating more (what was found is reported).
+var totalFails int
+
 func (d *driver) fail(key, what string) {
 	d.failed = true
+	totalFails++
 	c := d.caseSexp()
 	s := sx.String(c)
 	if len(s) > 20000 {
@@ -657,7 +662,7 @@ func main() {
 	if *mode == "race" {
 		rng = prng.New(r.Seed + 7777)
 		n := r.N(10, 300)
-		for i := 0; i < n; i++ {
+		for i := 0; i < n && totalFails < 5; i++ {
 			schedule(r, rng.Fork(), true)
 		}
 		req, ml := wrapHistory(r, rng.Fork(), r.N(3000, 70000), false)
@@ -667,7 +672,7 @@ func main() {
 	}
 	allocCases(r, rng.Fork(), r.N(400, 6000))
 	n := r.N(150, 3000)
-	for i := 0; i < n; i++ {
+	for i := 0; i < n && totalFails < 5; i++ {
 		schedule(r, rng.Fork(), i%2 == 1)
 	}
 	req, ml := wrapHistory(r, rng.Fork(), r.N(70000, 200000), false)
